@@ -72,6 +72,15 @@ def View.valid (env : Env) (key : Option String) (v : View) (m : Meta) : Bool :=
         | some s => env.verify k (hashFile b) s
   | _ => false
 
+/-- A record slot does not contradict the artifact of `n`: it names another number or validates. -/
+def slotOk (env : Env) (key : Option String) (v : View) (n : Nat) : Option Meta → Bool
+  | some m => m.number != n || v.valid env key m
+  | none => true
+
+/-- Every record numbered `n` (selection, last good, booting) validates against `n`'s artifact. -/
+def View.slotsValid (env : Env) (key : Option String) (v : View) (n : Nat) : Bool :=
+  slotOk env key v n v.ps.next && slotOk env key v n v.ps.last && slotOk env key v n v.ps.booting
+
 def View.fileOf (v : View) (n : Nat) : Option Bytes :=
   match v.art n with
   | some (.file b) => some b
@@ -325,10 +334,10 @@ def G03.next (env : Env) (g : G03) (op : Op) (pre post : View) : G03 :=
   if resetsState g.cfg op pre then { cfg := cfg, good := none, blind := false } else
   match succeededBy g.cfg op pre with
   | some n =>
-    -- the patch that just booted is "good" if its artifact is (still) intact at this moment
+    -- the patch that just booted is "good" if every record of its number matches the artifact in place
     (match post.fileOf n, post.ps.last with
     | some b, some m =>
-      if m.number = n ∧ post.valid env (g.cfg.bind (·.key)) m then { cfg := cfg, good := some (n, b), blind := false }
+      if m.number = n ∧ post.slotsValid env (g.cfg.bind (·.key)) n then { cfg := cfg, good := some (n, b), blind := false }
       else { cfg := cfg, good := none, blind := true }
     | _, _ => { cfg := cfg, good := none, blind := true })
   | none =>
@@ -341,27 +350,36 @@ def G03.next (env : Env) (g : G03) (op : Op) (pre post : View) : G03 :=
       else if (rolledBackBy g.cfg op).contains n then { cfg := cfg, good := none, blind := g.blind }
       else { cfg := cfg, good := some (n, b), blind := g.blind }
 
+/-- (a) the good artifact survives every op that does not excuse it -/
+def artChecks (good good' : Option (Nat × Bytes)) (op : Op) (post : View) : Checks :=
+  match good, good' with
+  | some (n, b), some (n', _) =>
+    if n = n' then [(post.fileOf n = some b, s!"C03: artifact of last good patch {n} was removed or altered by {op.tag}")] else []
+  | _, _ => []
+
+/-- What the selection must be after the selection `x` was lost. -/
+def fallTarget (good' : Option (Nat × Bytes)) (x : Nat) (post : View) : Checks :=
+  match good' with
+  | some (n, _) =>
+    if n ≠ x then [(post.nextNum = some n, s!"C03: selection {x} lost but the intact last good patch {n} was not selected (next={optNat post.nextNum})")]
+    else [(post.nextNum = none, s!"C03: selection {x} lost without fallback target, but next={optNat post.nextNum}")]
+  | none => [(post.nextNum = none, s!"C03: selection {x} lost with no last good patch, but next={optNat post.nextNum}")]
+
+/-- (b) when the selection is lost, the last good patch (if any, and not itself lost) is selected -/
+def fallChecks (cfg : Option Config) (blind blind' : Bool) (good' : Option (Nat × Bytes)) (op : Op) (pre post : View) : Checks :=
+  match pre.ps.next, entersWith cfg op with
+  | some x, some _ =>
+    if !blind' && !blind && !op.isDamage && installedBy op post = none && post.nextNum ≠ some x.number then
+      fallTarget good' x.number post
+    else []
+  | _, _ => []
+
 def mon03 : Monitor G03 where
   init := {}
   next env g op pre post := g.next env op pre post
   checks env g op pre post :=
-    let g' := g.next env op pre post
-    -- (a) the good artifact survives every op that does not excuse it
-    (match g.good, g'.good with
-      | some (n, b), some (n', _) =>
-        if n = n' then [(post.fileOf n = some b, s!"C03: artifact of last good patch {n} was removed or altered by {op.tag}")] else []
-      | _, _ => []) ++
-    -- (b) when the selection is lost, the last good patch (if any, and not itself lost) is selected
-    (match pre.ps.next, entersWith g.cfg op with
-      | some x, some _ =>
-        if !g'.blind && !g.blind && !op.isDamage && installedBy op post = none && post.nextNum ≠ some x.number then
-          match g'.good with
-          | some (n, _) =>
-            if n ≠ x.number then [(post.nextNum = some n, s!"C03: selection {x.number} lost but the intact last good patch {n} was not selected (next={optNat post.nextNum})")]
-            else [(post.nextNum = none, s!"C03: selection {x.number} lost without fallback target, but next={optNat post.nextNum}")]
-          | none => [(post.nextNum = none, s!"C03: selection {x.number} lost with no last good patch, but next={optNat post.nextNum}")]
-        else []
-      | _, _ => [])
+    artChecks g.good (g.next env op pre post).good op post ++
+    fallChecks g.cfg g.blind (g.next env op pre post).blind (g.next env op pre post).good op pre post
 
 /-! #### C09: an installed patch stays selected until something happens to that patch -/
 
@@ -369,15 +387,6 @@ structure G09 where
   cfg : Option Config := none
   sel : Option Nat := none
 deriving Repr, Inhabited
-
-/-- A record slot does not contradict the artifact of `n`: it names another number or validates. -/
-def slotOk (env : Env) (key : Option String) (v : View) (n : Nat) : Option Meta → Bool
-  | some m => m.number != n || v.valid env key m
-  | none => true
-
-/-- Every record numbered `n` (selection, last good, booting) validates against `n`'s artifact. -/
-def View.slotsValid (env : Env) (key : Option String) (v : View) (n : Nat) : Bool :=
-  slotOk env key v n v.ps.next && slotOk env key v n v.ps.last && slotOk env key v n v.ps.booting
 
 def G09.next (env : Env) (g : G09) (op : Op) (pre post : View) : G09 :=
   let cfg := trackCfg g.cfg op
